@@ -57,7 +57,7 @@ def run(drv, shim, root, reporter, mode, fault=None, timeout=20, asan=True):
         if fault:
             env["VERIF_FAULT"] = "%s:%d" % fault[:2] + (":" + fault[2] if len(fault) > 2 and fault[2] else "")
         try:
-            p = subprocess.run([drv, "case.scn"], cwd=d, env=env, stdout=subprocess.PIPE, stderr=subprocess.PIPE, timeout=timeout)
+            p = vlib.run_group([drv, "case.scn"], cwd=d, env=env, stdout=subprocess.PIPE, stderr=subprocess.PIPE, timeout=timeout)
             rc, out, err = p.returncode, p.stdout.decode("latin-1"), p.stderr.decode("latin-1")
         except subprocess.TimeoutExpired as ex:
             rc, out, err = None, (ex.stdout or b"").decode("latin-1"), (ex.stderr or b"").decode("latin-1")
